@@ -572,6 +572,11 @@ func (fr *frame) findLoops() {
 		if fr.top && fr.fc.c != nil {
 			li.spec = fr.fc.c.Loops[li.ordinal]
 		}
+		if !fr.top && fr.fc.c != nil {
+			if m := fr.fc.c.InlineLoops[fr.fn.Name()]; m != nil {
+				li.spec = m[li.ordinal]
+			}
+		}
 	}
 	if fr.top && fr.fc.c != nil {
 		for n := range fr.fc.c.Loops {
